@@ -373,7 +373,9 @@ func runConcScenario(s concScenario) concResult {
 		done <- ret{rs, err, pv, int(atomic.LoadInt32(&g.inflight))}
 	}()
 	if g.gated {
+		g.mu.Lock()
 		need := len(g.held)
+		g.mu.Unlock()
 		// wait until every first exchange has arrived: they are all in flight at the same time
 		arrived := 0
 		timeout := time.After(10 * time.Second)
@@ -401,7 +403,9 @@ func runConcScenario(s concScenario) concResult {
 			}
 		}
 		for _, lv := range order {
+			g.mu.Lock()
 			ch, ok := g.held[lv]
+			g.mu.Unlock()
 			if !ok {
 				continue
 			}
@@ -415,7 +419,17 @@ func runConcScenario(s concScenario) concResult {
 			if n := waitGoroutines(before-1, 300*time.Millisecond); n > before-1 {
 				res.Ordered = false
 			}
+			g.mu.Lock()
+			delete(g.held, lv)
+			g.mu.Unlock()
 		}
+		// a gate the order did not name must not hold the call for ever (that would be the harness's hang, not the code's)
+		g.mu.Lock()
+		for lv, ch := range g.held {
+			close(ch)
+			delete(g.held, lv)
+		}
+		g.mu.Unlock()
 	}
 	var r ret
 	select {
@@ -644,12 +658,18 @@ func genC17(r *Runner) {
 					add(concScenario{Kind: "panic", Mode: "full", Beh: beh, PanicAt: []int{at}, Order: first})
 					add(concScenario{Kind: "panic", Mode: "full", Beh: beh, PanicAt: []int{at}, Order: last})
 					add(concScenario{Kind: "panic", Mode: "full", Beh: beh, PanicAt: []int{at}})
-					add(concScenario{Kind: "panic", Mode: "ocsp", Beh: ocspOnly(beh), PanicAt: []int{at}, Order: first})
-					add(concScenario{Kind: "panic", Mode: "ocsp", Beh: ocspOnly(beh), PanicAt: []int{at}, Order: last})
+				}
+				// ocsp.CheckStatus on the OCSP-only projection: every certificate has an exchange there
+				lvO := live(ocspOnly(beh))
+				for _, at := range lvO {
+					add(concScenario{Kind: "panic", Mode: "ocsp", Beh: ocspOnly(beh), PanicAt: []int{at}, Order: append([]int{at}, without(lvO, at)...)})
+					add(concScenario{Kind: "panic", Mode: "ocsp", Beh: ocspOnly(beh), PanicAt: []int{at}, Order: append(without(lvO, at), at)})
 				}
 				if len(lv) >= 2 {
 					add(concScenario{Kind: "panic", Mode: "full", Beh: beh, PanicAt: []int{lv[0], lv[len(lv)-1]}, Order: lv})
-					add(concScenario{Kind: "panic", Mode: "ocsp", Beh: ocspOnly(beh), PanicAt: append([]int{}, lv...), Order: lv})
+				}
+				if len(lvO) >= 2 {
+					add(concScenario{Kind: "panic", Mode: "ocsp", Beh: ocspOnly(beh), PanicAt: append([]int{}, lvO...), Order: lvO})
 				}
 				// a cancellation at each exchange
 				for k := -1; k <= len(lv); k++ {
